@@ -1141,6 +1141,10 @@ impl<'a> VisitMut for OptPass<'a> {
                                 let pat = match &c.inputs[0] { syn::Pat::Type(pt) => (*pt.pat).clone(), p => p.clone() };
                                 syn::parse_quote!(match #recv { Some(#pat) => Some(#body), None => None })
                             }
+                            ("and_then", 1) => {
+                                let pat = match &c.inputs[0] { syn::Pat::Type(pt) => (*pt.pat).clone(), p => p.clone() };
+                                syn::parse_quote!(match #recv { Some(#pat) => #body, None => None })
+                            }
                             ("unwrap_or_else", 0) => syn::parse_quote!(match #recv { Some(__v) => __v, None => #body }),
                             ("ok_or_else", 0) => syn::parse_quote!(match #recv { Some(__v) => Ok(__v), None => Err(#body) }),
                             _ => {
@@ -1461,6 +1465,8 @@ impl<'a> LoopPass<'a> {
             this.visit_expr_mut(&mut b);
             Ok(quote!({ let #pat = #arg; #b }))
         };
+        let mut filtered = false;
+        let mut counter: Option<syn::Ident> = None;
         for a in &adapters {
             n += 1;
             let nxt = syn::Ident::new(&format!("__x{}_{}", k, n), Span::call_site());
@@ -1471,16 +1477,25 @@ impl<'a> LoopPass<'a> {
                     cur = nxt;
                 }
                 Adapter::Filter(c) => {
+                    filtered = true;
                     let e = inline(self, c, quote!(&#cur))?;
                     body.push(quote!(if !(#e) { continue; }));
                 }
                 Adapter::FilterMap(c) => {
+                    filtered = true;
                     let e = inline(self, c, quote!(#cur))?;
                     body.push(quote!(let #nxt = match #e { Some(__v) => __v, None => { continue; } };));
                     cur = nxt;
                 }
                 Adapter::Enumerate => {
-                    body.push(quote!(let #nxt = (#i_id - 1, #cur);));
+                    if filtered {
+                        // enumerate after a filter counts the elements that passed it, not the positions of the source
+                        let n_id = syn::Ident::new(&format!("__n{}", k), Span::call_site());
+                        body.push(quote!(let #nxt = (#n_id, #cur); #n_id = #n_id + 1;));
+                        counter = Some(n_id);
+                    } else {
+                        body.push(quote!(let #nxt = (#i_id - 1, #cur);));
+                    }
                     cur = nxt;
                 }
                 Adapter::Copied => {
@@ -1628,7 +1643,13 @@ impl<'a> LoopPass<'a> {
                 })
             }
         };
-        Ok(e)
+        match counter {
+            Some(n_id) => {
+                bump(self.counts, "R3.enumerate_after_filter");
+                Ok(syn::parse_quote!({ let mut #n_id: usize = 0; #e }))
+            }
+            None => Ok(e),
+        }
     }
 
     fn try_chain(&mut self, e: &syn::Expr) -> Option<syn::Expr> {
